@@ -507,4 +507,178 @@ theorem struct_literal_no_extra (Γ : Env) (fs : Fields) (kvs : KVs)
       simp only [decide_eq_true_eq]; omega
     simp [this, hany] at hx
 
+
+/-! ### soundness of `validExp` -/
+
+theorem refOk_sound (Γ : Env) (ρ : Store) (hρ : StoreOk Γ ρ) (t : Ty) (hwf : t.wf = true) (e : Exp)
+    (hv : refOk Γ t e = true) (hh : refHoleFree Γ t e = true) :
+    ∃ v, eval Γ ρ e = some v ∧ valid t (filter t v).1 = true := by
+  simp only [refOk] at hv
+  simp only [refHoleFree] at hh
+  cases hr : refType Γ e with
+  | none => simp [hr] at hv
+  | some s =>
+    simp only [hr, Bool.and_eq_true] at hv hh
+    obtain ⟨v, hev, hs⟩ := ref_shape Γ ρ hρ e s hr
+    exact ⟨v, hev, valid_of_shape _ _ (shape_filter_of_assignable t hwf s v hs hv.2 hh)⟩
+
+theorem validBase_sound (Γ : Env) (ρ : Store) (hρ : StoreOk Γ ρ) (b : Base) (e : Exp)
+    (hwe : e.wf = true) (hv : validBase Γ b e = true) (hh : refHoleFree Γ (.base b) e = true) :
+    ∃ v, eval Γ ρ e = some v ∧ valid (.base b) (filter (.base b) v).1 = true := by
+  cases e with
+  | null => exact ⟨.null, rfl, by rw [filter_null]; exact valid_null _⟩
+  | int v =>
+    refine ⟨_, rfl, ?_⟩
+    simp only [Exp.wf] at hwe
+    cases b <;> simp [validBase] at hv <;> simp [filter, filterBase, valid, check, checkBase, hwe]
+  | float m x =>
+    refine ⟨_, rfl, ?_⟩
+    cases b <;> simp [validBase] at hv
+    · -- int
+      simp only [floatIsInt64] at hv
+      cases hi : (Num.flt m x).intValue? with
+      | none => simp [hi] at hv
+      | some i =>
+        simp only [hi] at hv
+        simp [litFloat, hi, hv, filter, filterBase, valid, check, checkBase]
+    · -- float
+      simp [filter, filterBase, valid, check, checkBase]
+  | str s =>
+    refine ⟨_, rfl, ?_⟩
+    cases b <;> simp [validBase] at hv <;> simp [filter, filterBase, valid, check, checkBase]
+  | bool x =>
+    refine ⟨_, rfl, ?_⟩
+    cases b <;> simp [validBase] at hv <;> simp [filter, filterBase, valid, check, checkBase]
+  | arr xs => simp [validBase] at hv
+  | map isStruct kvs =>
+    simp only [validBase, Bool.and_eq_true, beq_iff_eq, Bool.not_eq_true'] at hv
+    obtain ⟨⟨rfl, _⟩, hnr⟩ := hv
+    obtain ⟨vs, hvs⟩ := evalKV_of_noRef Γ ρ kvs hnr
+    exact ⟨.obj vs, by simp [eval, hvs], by simp [filter, filterBase, valid, check, checkBase]⟩
+  | self id p => exact refOk_sound Γ ρ hρ _ (by simp [Ty.wf]) _ (by simpa [validBase] using hv) hh
+  | call id p => exact refOk_sound Γ ρ hρ _ (by simp [Ty.wf]) _ (by simpa [validBase] using hv) hh
+
+theorem validExp_sound (Γ : Env) (ρ : Store) (hρ : StoreOk Γ ρ) (t : Ty) :
+    t.wf = true → ∀ (e : Exp), e.wf = true → validExp Γ t e = true → holeFree Γ t e = true →
+      ∃ v, eval Γ ρ e = some v ∧ valid t (filter t v).1 = true := by
+  induction t using Ty.induct' with
+  | base b =>
+    intro _ e hwe hv hh
+    exact validBase_sound Γ ρ hρ b e hwe (by simpa [validExp] using hv) (by simpa [holeFree] using hh)
+  | user n =>
+    intro hwf e hwe hv hh
+    cases e with
+    | null => exact ⟨.null, rfl, by rw [filter_null]; exact valid_null _⟩
+    | str s => exact ⟨_, rfl, by simp [filter, valid, check]⟩
+    | self id p => exact refOk_sound Γ ρ hρ _ hwf _ (by simpa [validExp] using hv) (by simpa [holeFree] using hh)
+    | call id p => exact refOk_sound Γ ρ hρ _ hwf _ (by simpa [validExp] using hv) (by simpa [holeFree] using hh)
+    | _ => simp [validExp] at hv
+  | arr t ih =>
+    intro hwf e hwe hv hh
+    have ih := ih (by simpa [Ty.wf] using hwf)
+    cases e with
+    | null => exact ⟨.null, rfl, by rw [filter_null]; exact valid_null _⟩
+    | arr xs =>
+      simp only [validExp, List.all_eq_true] at hv
+      simp only [holeFree, List.all_eq_true] at hh
+      simp only [Exp.wf] at hwe
+      obtain ⟨vs, hvs, hall⟩ := evalL_spec Γ ρ (fun v => valid t (filter t v).1 = true) xs
+        (fun x hx => ih x (Exps.wf_mem hwe x hx) (hv x hx) (hh x hx))
+      refine ⟨.arr vs, by simp [eval, hvs], ?_⟩
+      rw [filter_arr_fst]
+      apply valid_of_shape
+      refine Shape.arr _ _ ?_
+      intro y hy
+      obtain ⟨x, hxm, rfl⟩ := List.mem_map.mp hy
+      exact shape_of_valid _ _ (hall x hxm)
+    | self id p => exact refOk_sound Γ ρ hρ _ hwf _ (by simpa [validExp] using hv) (by simpa [holeFree] using hh)
+    | call id p => exact refOk_sound Γ ρ hρ _ hwf _ (by simpa [validExp] using hv) (by simpa [holeFree] using hh)
+    | _ => simp [validExp] at hv
+  | tmap t ih =>
+    intro hwf e hwe hv hh
+    have ih := ih (by simpa [Ty.wf] using hwf)
+    cases e with
+    | null => exact ⟨.null, rfl, by rw [filter_null]; exact valid_null _⟩
+    | map isStruct kvs =>
+      cases isStruct with
+      | true => simp [validExp] at hv
+      | false =>
+        simp only [validExp, List.all_eq_true, Bool.and_eq_true] at hv
+        simp only [holeFree, List.all_eq_true] at hh
+        simp only [Exp.wf, Bool.and_eq_true] at hwe
+        have hev : ∀ kv ∈ kvs.toList, ∃ v, eval Γ ρ kv.2 = some v ∧ valid t (filter t v).1 = true :=
+          fun kv hkv => ih kv.2 (KVs.wf_mem hwe.1 kv hkv) (hv kv hkv).1 (hh kv hkv)
+        obtain ⟨vs, hvs⟩ := evalKV_some Γ ρ kvs (fun kv hkv => by
+          obtain ⟨v, h1, _⟩ := hev kv hkv; exact ⟨v, h1⟩)
+        refine ⟨.obj vs, by simp [eval, hvs], ?_⟩
+        rw [filter_tmap_fst]
+        apply valid_of_shape
+        refine Shape.tmap _ _ ?_ ?_
+        · intro y hy
+          obtain ⟨kv, hkv, rfl⟩ := List.mem_map.mp hy
+          obtain ⟨e, hme, hee⟩ := evalKV_mem Γ ρ kvs vs hvs kv hkv
+          obtain ⟨v, h1, h2⟩ := hev (kv.1, e) hme
+          simp only at h1
+          rw [hee] at h1
+          cases h1
+          exact shape_of_valid _ _ h2
+        · intro hd y hy
+          obtain ⟨kv, hkv, rfl⟩ := List.mem_map.mp hy
+          obtain ⟨e, hme, _⟩ := evalKV_mem Γ ρ kvs vs hvs kv hkv
+          have := (hv (kv.1, e) hme).2
+          simpa [hd] using this
+    | self id p => exact refOk_sound Γ ρ hρ _ hwf _ (by simpa [validExp] using hv) (by simpa [holeFree] using hh)
+    | call id p => exact refOk_sound Γ ρ hρ _ hwf _ (by simpa [validExp] using hv) (by simpa [holeFree] using hh)
+    | _ => simp [validExp] at hv
+  | struct n fs ih =>
+    intro hwf e hwe hv hh
+    have hwf' := Fields.wf_iff.mp (by simpa [Ty.wf] using hwf)
+    cases e with
+    | null => exact ⟨.null, rfl, by rw [filter_null]; exact valid_null _⟩
+    | map isStruct kvs =>
+      simp only [validExp, Bool.and_eq_true, Bool.not_eq_true'] at hv
+      simp only [holeFree] at hh
+      simp only [Exp.wf, Bool.and_eq_true, decide_eq_true_eq] at hwe
+      have hvf := (validFields_iff Γ fs kvs).mp hv.1
+      have hhf := (holeFreeFields_iff Γ fs kvs).mp hh
+      have hmember : ∀ k t, (k, t) ∈ fs.toList →
+          ∃ e v, kvs.get k = some e ∧ eval Γ ρ e = some v ∧ valid t (filter t v).1 = true := by
+        intro k t hkt
+        obtain ⟨e, he, hve⟩ := hvf k t hkt
+        obtain ⟨v, h1, h2⟩ := ih k t hkt (hwf'.2 k t hkt) e (KVs.wf_mem hwe.1 (k, e) (KVs.get_mem he))
+          hve (hhf k t hkt e he)
+        exact ⟨e, v, he, h1, h2⟩
+      obtain ⟨vs, hvs⟩ := evalKV_some Γ ρ kvs (fun kv hkv => by
+        obtain ⟨t, hkt⟩ := struct_literal_no_extra Γ fs kvs hwf'.1 hv.1 hv.2 kv hkv
+        obtain ⟨e, v, he, h1, _⟩ := hmember kv.1 t hkt
+        have : KVs.get kv.1 kvs = some kv.2 := KVs.get_of_mem_nodup hwe.2 hkv
+        rw [this] at he
+        cases he
+        exact ⟨v, h1⟩)
+      refine ⟨.obj vs, by simp [eval, hvs], ?_⟩
+      rw [filter_struct_fst]
+      apply valid_of_shape
+      have hkeys : ((fs.toList.map (fun kt => (kt.1, fieldOut kt.2 (getKey kt.1 vs)))).map Prod.fst).Nodup := by
+        rw [keys_fields_out]; exact hwf'.1
+      have hmem : ∀ k t, (k, t) ∈ fs.toList → (k, fieldOut t (getKey k vs)) ∈
+          fs.toList.map (fun kt => (kt.1, fieldOut kt.2 (getKey kt.1 vs))) :=
+        fun k t hkt => List.mem_map.mpr ⟨(k, t), hkt, rfl⟩
+      refine Shape.struct _ _ _ ?_ ?_
+      · intro k t hkt
+        exact getKey_isSome_of_mem (hmem k t hkt)
+      · intro k t w hkt hw
+        rw [getKey_of_mem_nodup hkeys (hmem k t hkt)] at hw
+        cases hw
+        obtain ⟨e, v, he, h1, h2⟩ := hmember k t hkt
+        have hg := getKey_evalKV Γ ρ k kvs vs hvs
+        simp only [he] at hg
+        obtain ⟨v', h1', hgv⟩ := hg
+        rw [h1] at h1'
+        cases h1'
+        simp only [hgv, fieldOut]
+        exact shape_of_valid _ _ h2
+    | self id p => exact refOk_sound Γ ρ hρ _ hwf _ (by simpa [validExp] using hv) (by simpa [holeFree] using hh)
+    | call id p => exact refOk_sound Γ ρ hρ _ hwf _ (by simpa [validExp] using hv) (by simpa [holeFree] using hh)
+    | _ => simp [validExp] at hv
+
 end Martian.Typing
